@@ -26,6 +26,8 @@ def run(rep, tier):
     c14.a4(rep, M)
     c14.a5(rep, M)
     c14.k2(rep, M)
+    from . import c14_k1
+    c14_k1.k1(rep, M)
     ix = common.index(rep)
     c10_2(rep, ix)
     c10_3(rep, ix)
